@@ -9,6 +9,7 @@ package main
 // mismatch is a failed obligation `(*T).len#schema`, `(*T).copy#deep`, `(*T).isDuplicate#schema`.
 
 import (
+	"golang.org/x/tools/go/ssa"
 	"bytes"
 	"fmt"
 	"go/ast"
@@ -483,6 +484,90 @@ func (e *Engine) canonObligations() []*Obligation {
 		if !seen[tn] {
 			out = append(out, mk(tn, "rawSignatureData case *"+tn, layoutResult{false, "type without a schema is lower-cased"}, nil))
 		}
+	}
+	return out
+}
+
+// parseWidthObligations: in the presentation parsers a number read with strconv.ParseUint(tok, base, N) and
+// stored after a plain conversion to an M-bit unsigned type must have N == M (N > M silently truncates,
+// N < M rejects values the field can hold and String() prints).  One obligation per parser function.
+func (e *Engine) parseWidthObligations() []*Obligation {
+	var names []string
+	for _, n := range e.implsOf("RR.parse") {
+		names = append(names, n)
+	}
+	for _, n := range e.implsOf("SVCBKeyValue.parse") {
+		names = append(names, n)
+	}
+	names = append(names, "(*DNSKEY).parseDNSKEY", "(*DS).parseDS")
+	sortStrings(names)
+	var out []*Obligation
+	for _, n := range names {
+		fn := e.funcs[n]
+		if fn == nil || len(fn.Blocks) == 0 {
+			continue
+		}
+		if n == "(*TKEY).parse" {
+			// TKEY has no presentation format: String() prints a comment line (leading ";") with other fields
+			// than parse() reads, so there is no text round trip for the widths to be consistent with
+			continue
+		}
+		var bad []string
+		sites := 0
+		for _, b := range fn.Blocks {
+			for _, in := range b.Instrs {
+				c, ok := in.(*ssa.Call)
+				if !ok {
+					continue
+				}
+				f, ok := c.Call.Value.(*ssa.Function)
+				if !ok || f.String() != "strconv.ParseUint" || len(c.Call.Args) != 3 {
+					continue
+				}
+				bc, ok := c.Call.Args[2].(*ssa.Const)
+				if !ok || bc.Value == nil {
+					continue
+				}
+				nbits := int(bc.Int64())
+				if c.Referrers() == nil {
+					continue
+				}
+				for _, r := range *c.Referrers() {
+					ex, ok := r.(*ssa.Extract)
+					if !ok || ex.Index != 0 || ex.Referrers() == nil {
+						continue
+					}
+					for _, u := range *ex.Referrers() {
+						cv, ok := u.(*ssa.Convert)
+						if !ok {
+							continue
+						}
+						mbits, signed, isInt := intBits(cv.Type())
+						if !isInt || signed {
+							continue
+						}
+						sites++
+						if mbits != nbits && !(nbits == 48 && mbits == 64) {
+							bad = append(bad, fmt.Sprintf("line %d: ParseUint(..., %d) converted to %s", e.fset.Position(c.Pos()).Line, nbits, cv.Type()))
+						}
+					}
+				}
+			}
+		}
+		if sites == 0 {
+			continue
+		}
+		ob := &Obligation{Fn: n, Name: n + "#parse.widths", Kind: "layout", Solver: "structural matcher (SSA data flow)", Pos: fn.Pos()}
+		ob.Src = fmt.Sprintf("every number parsed in %s is read with the bit width of the field it is stored in (%d sites)", n, sites)
+		ob.Clause = &Clause{Label: "parse.widths", Src: ob.Src}
+		if len(bad) == 0 {
+			ob.Status = "proved"
+		} else {
+			ob.Status = "failed"
+			ob.Output = strings.Join(bad, "; ")
+			ob.Src += " -- " + ob.Output
+		}
+		out = append(out, ob)
 	}
 	return out
 }
